@@ -590,6 +590,12 @@ func (fc *FuncCtx) specCall(x SCall, env *SpecEnv) Term {
 	case "sprintf":
 		var ts []Term
 		for i := range x.Args {
+			// optional (variadic) actuals o1..o6 of an extern that were not supplied are skipped
+			if id, ok := x.Args[i].(SIdent); ok && len(id.Name) == 2 && id.Name[0] == 'o' && id.Name[1] >= '1' && id.Name[1] <= '6' {
+				if _, bound := env.bound[id.Name]; !bound {
+					continue
+				}
+			}
 			ts = append(ts, arg(i))
 		}
 		if f, ok := smtStrLitValue(ts[0].S); ok {
